@@ -1691,6 +1691,7 @@ impl FixtureDatabase {
     ///
     /// Returns the best matching FixtureDefinition based on pytest's
     /// fixture shadowing rules: same file > conftest hierarchy > third-party.
+    #[allow(dead_code)] // Used in tests
     pub fn resolve_fixture_for_file(
         &self,
         file_path: &Path,
